@@ -104,18 +104,18 @@ class JSONListFormatter(SequenceFormatter):
         """
         super().print_SequenceNode(*args, **kwargs)
 
-    def print_SequenceNode(self, *args, **kwargs):
+    def print_SequenceNode(self, printer: Printer, node: TreeNode):
         """Prints a non-List sequence.
 
-        This delegates to the parent formatter's implementation::
+        This delegates to the parent formatter's implementation for the node::
 
-            self.parent.print(*args, **kwargs)
+            self.parent.get_formatter(node)(printer, node)
 
-        which should invoke :meth:`JSONFormatter.print`, thereby delegating to the :class:`JSONDictFormatter` in
-        instances where a list contains a dict.
+        thereby delegating to the :class:`JSONDictFormatter` in instances where a list contains a dict. The node's own
+        edit, if any, is not consulted again: whoever is printing that edit is our caller.
 
         """
-        self.parent.print(*args, **kwargs)
+        self.parent.get_formatter(node)(printer, node)
 
 
 class JSONDictFormatter(SequenceFormatter):
@@ -149,18 +149,18 @@ class JSONDictFormatter(SequenceFormatter):
         """
         super().print_SequenceNode(*args, **kwargs)
 
-    def print_SequenceNode(self, *args, **kwargs):
+    def print_SequenceNode(self, printer: Printer, node: TreeNode):
         """Prints a non-Dict sequence.
 
-        This delegates to the parent formatter's implementation::
+        This delegates to the parent formatter's implementation for the node::
 
-            self.parent.print(*args, **kwargs)
+            self.parent.get_formatter(node)(printer, node)
 
-        which should invoke :meth:`JSONFormatter.print`, thereby delegating to the :class:`JSONListFormatter` in
-        instances where a dict contains a list.
+        thereby delegating to the :class:`JSONListFormatter` in instances where a dict contains a list. The node's own
+        edit, if any, is not consulted again: whoever is printing that edit is our caller.
 
         """
-        self.parent.print(*args, **kwargs)
+        self.parent.get_formatter(node)(printer, node)
 
 
 class JSONStringFormatter(StringFormatter):
